@@ -41,6 +41,23 @@ def _set_schema_emit(schema, emit):
 DEFAULT_SCHEMA = '_default'
 
 
+def _override_state(node, state, explicit):
+    '''Put the values of ``explicit`` over ``state`` (both shaped like
+    the hierarchy below ``node``). The value given for a variable
+    replaces the variable's value as a whole - also when it is a
+    dictionary; only branches are merged key by key.'''
+    for key, value in explicit.items():
+        child = node.inner.get(key) if node is not None else None
+        is_variable = child is not None and not child.inner \
+            and not child.subschema
+        if isinstance(value, dict) and isinstance(state.get(key), dict) \
+                and not is_variable:
+            _override_state(child, state[key], value)
+        else:
+            state[key] = value
+    return state
+
+
 def _count_merged_updates(update):
     '''How many updates were merged into the dictionary ``update`` key
     by key (0: it is one update).'''
@@ -1522,7 +1539,8 @@ class Store:
             # use initial state as default, merge in divided values.
             # Copy the divided values so that the daughters do not
             # share mutable values (e.g. from the ``set`` divider).
-            merged_initial_state = deep_merge(
+            merged_initial_state = _override_state(
+                self.inner[mother],
                 copy.deepcopy(daughter_state),
                 daughter.get('initial_state', {}))
 
